@@ -228,6 +228,9 @@ structure Conf where
   listed : List Feature
   /-- initiator: the features list being read / read last (ghost: only recorded in `listIn`) -/
   curAdv : List AdvItem
+  /-- initiator: configured features of the current list whose masks did not hold when the
+  list was read (`streamFeaturesList.skipped`) -/
+  skipped : List Entry
   deriving Repr
 
 def Conf.log (c : Conf) (e : Ev) : Conf := { c with tr := e :: c.tr }
@@ -236,7 +239,7 @@ def Conf.goto (c : Conf) (p : Pc) : Conf := { c with pc := p }
 def init (st0 : St) (script : List Peer) (picks : List FName) : Conf :=
   { pc := .top, st := st0, negd := [], tr := [], io := 0, script := script, picks := picks,
     doRestart := true, first := true, srv := false, cache := [], lreq := false, total := 0,
-    listed := [], curAdv := [] }
+    listed := [], curAdv := [], skipped := [] }
 
 /-- `intstream.Send` -/
 def writeHdr (O : Oracle) (c : Conf) (next : Pc) : Conf :=
@@ -267,6 +270,11 @@ def negotiate (O : Oracle) (c : Conf) (e : Entry) (forced : Bool) (loop : Pc) : 
 def candidates (c : Conf) : List Entry :=
   c.cache.filter fun e => e.f.negotiable && !c.negd.contains e.f.name.ns && eligible c.st e.f
 
+/-- a mandatory, negotiable feature that was skipped when the list was read is eligible now
+and not negotiated -/
+def skippedOpen (c : Conf) : Bool :=
+  c.skipped.any fun e => e.req && e.f.negotiable && !c.negd.contains e.f.name.ns && eligible c.st e.f
+
 /-- what the map iteration can end on: the first voluntary candidate met, else the last
 mandatory one -/
 def allowed (cands : List Entry) : List Entry :=
@@ -293,7 +301,7 @@ def step (C : List Feature) (O : Oracle) (c : Conf) : Conf :=
   | .hdr1 => if c.srv then readHdr O c .hdr2 else writeHdr O c .hdr2
   | .hdr2 => if c.srv then writeHdr O c .feat else readHdr O c .feat
   | .feat =>
-    let c := { c with cache := [], lreq := false, total := 0, listed := [] }
+    let c := { c with cache := [], lreq := false, total := 0, listed := [], skipped := [] }
     if c.srv then c.goto (.listing C) else c.goto .readList
   | .listing [] => c.goto .flush
   | .listing (f :: fs) =>
@@ -334,7 +342,7 @@ def step (C : List Feature) (O : Oracle) (c : Conf) : Conf :=
       else
         let c2 := { c1 with lreq := c.lreq || req }
         if eligible c.st f then { c2 with cache := c.cache.put ⟨req, f⟩, pc := .parsing rest }
-        else c2.goto (.parsing rest)
+        else { c2 with skipped := c.skipped ++ [⟨req, f⟩], pc := .parsing rest }
   | .decide =>
     let forced := c.first && !(c.cache.get nsTLS).isSome && !has c.st bSecure &&
       (match tlsFeature C with
@@ -352,7 +360,10 @@ def step (C : List Feature) (O : Oracle) (c : Conf) : Conf :=
     | _, _ => c.goto .stuck
   | .cloop false =>
     let cands := candidates c
-    if cands.isEmpty then c.goto (.ret bReady false)
+    if cands.isEmpty then
+      -- nothing left to pick: success, unless a mandatory feature that was skipped when the
+      -- list was read has become possible in the meantime
+      if skippedOpen c then c.goto (.fail .proto) else c.goto (.ret bReady false)
     else match c.picks with
       | [] => c.goto .stuck
       | p :: ps =>
